@@ -173,6 +173,13 @@ class CodecFamily:
                 # construct directly: pick y, solve nothing -- use known points: y^2 - b2 must be a cube; skip if not found
             yield dict(kind="rt2_special")
             yield dict(kind="rt2inf")
+            # byte-level decoders: flag bits / excess in the second half of a 96-byte signature, first half of a key
+            for x in xs2[:2]:
+                x3 = f2mul(f2mul(x, x), x)
+                y = sqrt_fq2(((x3[0] + 4) % Q, (x3[1] + 4) % Q))
+                z1, z2 = enc2((x, y))
+                for extra in (0, P381, P382, P383, 7 * P381):
+                    yield dict(kind="sigbytes", z1=z1, z2=z2 + extra)
 
     def check(self, fn, inp):
         import py_ecc.bls.point_compression as PC
@@ -302,6 +309,18 @@ class CodecFamily:
                         return dict(why="decompress_G2(compress_G2(P)) != P for y with a zero component", observed=back, expected=P)
                     if found >= 10:
                         return None
+        elif k == "sigbytes":
+            from py_ecc.bls.g2_primitives import signature_to_G2
+            z1, z2 = inp["z1"], inp["z2"]
+            bs = z1.to_bytes(48, "big") + z2.to_bytes(48, "big")
+            want = dec2(z1, z2)
+            try:
+                got = _aff(signature_to_G2(bs))
+            except ValueError:
+                got = "refuse"
+            if got != want:
+                return dict(why="signature_to_G2 accepts a non-canonical 96-byte string (flag bits / excess in the second half)",
+                            observed=str(got)[:80], expected=str(want)[:80], signature=bs.hex())
         elif k == "rt2inf":
             from py_ecc.optimized_bls12_381 import Z2
             if tuple(int(v) for v in PC.compress_G2(Z2)) != (P383 + P382, 0):
